@@ -15,7 +15,7 @@ def crit_of(cfg):
     return "size" if "-size" in cfg else "length" if "-length" in cfg else "gas"
 
 
-def measures(block, push0, states):
+def measures(block, push0, states, meter=True):
     items = B.to_json_items(B.strip_markers(block))
     size = sum(asm_ref.item_bytes(i, push0) for i in items)
     length = len(items)
@@ -23,7 +23,7 @@ def measures(block, push0, states):
     gas = []
     for st in states:
         try:
-            gas.append(E.run(block, st, gas_meter=True).gas)
+            gas.append(E.run(block, st, gas_meter=meter).gas)
         except (E.OOG, E.Underflow):
             gas.append(None)
     return size, length, gas
@@ -43,9 +43,19 @@ def cmp_vec(a, b):
 
 
 def judge(block, out, cfg, push0):
+    clause, info = judge_with(block, out, cfg, push0, True)
+    if clause:
+        # would the verdict stand if every slot/address were already warm?  If not, the only regression is a cold
+        # surcharge that moved from a removed access to a later access of the same slot (aliasing states only)
+        c2, _ = judge_with(block, out, cfg, push0, "warm")
+        info["cause"] = "cold-access-moved" if c2 is None else "other"
+    return clause, info
+
+
+def judge_with(block, out, cfg, push0, meter):
     states = B.states_for(block)
-    s0, l0, g0 = measures(block, push0, states)
-    s1, l1, g1 = measures(out, push0, states)
+    s0, l0, g0 = measures(block, push0, states, meter)
+    s1, l1, g1 = measures(out, push0, states, meter)
     crit = crit_of(cfg)
     g_nw, g_b, g_eq = cmp_vec(g0, g1)
     rel = {"size": (s1 <= s0, s1 < s0, s1 == s0), "length": (l1 <= l0, l1 < l0, l1 == l0), "gas": (g_nw, g_b, g_eq)}
@@ -178,7 +188,8 @@ def main(tier, seed, only=None):
                 v = value["viol"]
                 ops = sorted({op for op, _ in block if not (op.startswith("DUP") or op.startswith("SWAP")
                                                             or op in ("POP", "PUSH"))})
-                chk.violation("%s;%s;ops=[%s]" % (v["clause"], v["criterion"], ",".join(ops)), v)
+                chk.violation("%s;%s;cause=%s;ops=[%s]" % (v["clause"], v["criterion"], v.get("cause", "other"),
+                                                          ",".join(ops)), v)
 
         cs = cfgs_a(tier)
         # candidate selection among original / greedy / solver (stand-in solver, see mc/standin.py)
